@@ -69,6 +69,7 @@ def run(prog, chk):
     chk.defer(dump_closure_table, prog, chk)
     chk.defer(anchor_removal_table, prog, chk)
     chk.defer(shared_edit_rule, prog, chk)
+    chk.defer(parser_leaves_tree_alone, prog, chk)
 
 
 def _run(prog, chk):
@@ -395,3 +396,33 @@ def shared_edit_rule(prog, chk):
                    loc=fn.loc(), fn=fn)
     if n < 3:
         raise AnalysisBroken("C11.sharededit: only %d functions that keep a reference to a parameter recognised" % n)
+
+
+def parser_leaves_tree_alone(prog, chk):
+    """"A parsed signature re-serializes to exactly the bytes it was parsed from": the signature keeps (a clone of) the TLV tree it was
+    parsed from and serializes from it, so the typed parser must read that tree, not edit it.  Over the extraction half of the
+    template engine (every function of tlv_template.c reachable from KSI_TlvTemplate_extract / _parse / _extractGenerator without going
+    through the construct half): no call of a function that edits a TLV tree or its element lists (setRawValue, append / replace /
+    remove of nested elements, list insert / remove / replace).  Reading (length, elementAt) and the lazy change of representation are
+    not edits."""
+    chk.rule("C11.parsepure", "the typed parser reads the TLV tree it is given and does not edit it (who-may-call over the extraction half of the template engine)", floor=4)
+    roots = ["KSI_TlvTemplate_extract", "KSI_TlvTemplate_parse", "KSI_TlvTemplate_extractGenerator"]
+    seen, work = set(), list(roots)
+    while work:
+        nme = work.pop()
+        for f in prog.functions.get(nme, []):
+            if f.unit != "tlv_template.c" or f.name in seen:
+                continue
+            seen.add(f.name)
+            for b, i, c in f.calls():
+                if c.get("fn") and c["fn"] not in seen and not c["fn"].startswith("construct") and "construct" not in c["fn"].lower():
+                    work.append(c["fn"])
+    if len(seen) < 4:
+        raise AnalysisBroken("extraction half of the template engine not found: %s" % sorted(seen))
+    EDIT = re.compile(r"^(KSI_TLV_(setRawValue|appendNestedTlv|replaceNestedTlv|removeNestedTlv|setUintValue|setStringValue)|KSI_TLVList_(append|remove|insertAt|replaceAt|sort))$")
+    for nme in sorted(seen):
+        f = prog.fn(nme, "tlv_template.c")
+        bad = ["%s (line %s)" % (c["fn"], c.get("ln")) for b, i, c in f.calls() if EDIT.match(c.get("fn") or "")]
+        chk.ob("C11.parsepure", nme, not bad, "reads the tree only" if not bad else
+               "edits the TLV tree it parses: %s - the signature is serialized from that tree, so what was parsed is no longer what is written" % ", ".join(bad),
+               loc=f.loc(), fn=f)
